@@ -760,6 +760,61 @@ fn c13_sync_sequences(rep: &mut Report, tier: Tier) {
         }
     }
     rep.set("sync_redelivery_patterns", json!(redelivery));
+    // the serving side: the real mempool Helper answers a BatchRequest with EVERY listed batch it
+    // holds, byte for byte, to the requestor's mempool address (a block may reference several
+    // batches the requestor lacks; all of them travel in one request)
+    {
+        let req_lists: Vec<Vec<usize>> = vec![vec![0], vec![1], vec![0, 1], vec![1, 0], vec![0, 0], vec![2], vec![2, 0], vec![0, 2, 1]];
+        let mut helper_cases = 0u64;
+        for stored_mask in 0..4u8 {
+            for l in &req_lists {
+                for origin in [1usize, 3] {
+                    helper_cases += 1;
+                    let params = mempool::Parameters { gc_depth: 50, sync_retry_delay: 1_000, sync_retry_nodes: 3, batch_size: 1_000_000, max_batch_delay: 1_000_000_000 };
+                    let mut node = MempoolNode::boot(&w, 0, params);
+                    for x in 0..2 {
+                        if stored_mask & (1 << x) != 0 {
+                            node.deliver(MEMPOOL_PORT0, &batches[x]);
+                        }
+                    }
+                    node.rt.quiesce();
+                    node.poll_conns();
+                    for ep in &node.outs {
+                        let _ = ep.read_frames();
+                    }
+                    let unknown = Digest([0x5a; 32]);
+                    let ds: Vec<Digest> = l.iter().map(|x| if *x < 2 { digests[*x].clone() } else { unknown.clone() }).collect();
+                    let req = bincode::serialize(&MempoolMessage::BatchRequest(ds, w.name(origin))).unwrap();
+                    node.deliver(MEMPOOL_PORT0, &req);
+                    node.rt.quiesce();
+                    node.poll_conns();
+                    let mut got: Vec<(usize, Vec<u8>)> = Vec::new();
+                    for ep in &node.outs {
+                        let peer = (ep.addr.port() - MEMPOOL_PORT0) as usize;
+                        for f in ep.read_frames() {
+                            got.push((peer, f));
+                        }
+                    }
+                    for x in l.iter().filter(|x| **x < 2) {
+                        let held = stored_mask & (1 << x) != 0;
+                        let served = got.iter().any(|(p, f)| *p == origin && *f == batches[*x]);
+                        if held && !served {
+                            rep.violation("e2e:batch-request-not-fully-served".into(), format!("[mempool helper] n0 holds batches {:?}; a BatchRequest from n{} for {:?} was not answered with batch {} (frames sent: {:?})", (0..2).filter(|b| stored_mask & (1 << b) != 0).collect::<Vec<_>>(), origin, l, x, got.iter().map(|(p, f)| (*p, f.len())).collect::<Vec<_>>()), json!({"engine":"seq-mempool-sync","helper_request":l,"stored_mask":stored_mask,"origin":origin}));
+                        }
+                    }
+                    for (p, f) in &got {
+                        if *p != origin || !batches.iter().any(|b| b == f) {
+                            rep.violation("e2e:batch-request-wrong-reply".into(), format!("[mempool helper] a BatchRequest from n{} for {:?} produced a frame of {} bytes to n{} that is not one of the stored batches for the requestor", origin, l, f.len(), p), json!({"engine":"seq-mempool-sync","helper_request":l,"stored_mask":stored_mask,"origin":origin}));
+                        }
+                    }
+                    for pn in node.rt.panics() {
+                        rep.violation("e2e:panic".into(), format!("[mempool helper] a mempool task panicked: {}", pn), json!({"engine":"seq-mempool-sync","helper_request":l}));
+                    }
+                }
+            }
+        }
+        rep.set("helper_request_cases", json!(helper_cases));
+    }
     let mut n_bad = 0;
     for (i, b) in results.iter().enumerate() {
         if let Some((sig, what)) = b {
